@@ -5,7 +5,7 @@ use std::collections::BTreeSet;
 
 use serde::{Deserialize, Serialize};
 
-use crate::res::{Res, ND, NT};
+use crate::res::{Res, ND, ND_CLASSIC, NT};
 
 #[derive(Clone, Debug, Serialize, Deserialize, PartialEq, Eq, Hash)]
 pub enum Kind {
@@ -487,6 +487,8 @@ pub struct GenCfg {
     pub p_rejected: usize,
     /// probability (in 1/16) that a dynamic system writes anything at all
     pub write_chance: usize,
+    /// draw the universe from all 96 resources (8 types x 12 dynamic ids) instead of the classic 32
+    pub extended_universe: bool,
 }
 
 impl Default for GenCfg {
@@ -514,6 +516,7 @@ impl Default for GenCfg {
             tl_in_batch_access: true,
             p_rejected: 0,
             write_chance: 16,
+            extended_universe: false,
         }
     }
 }
@@ -538,6 +541,10 @@ impl NameGen {
             for _ in 0..len {
                 n.push(ALPHA[src.pick(ALPHA.len())]);
             }
+            // now and then a long name (well past any inline small-string capacity)
+            if src.chance(2, 16) {
+                n = n.repeat(20 + 100 * src.pick(3));
+            }
             n
         } else {
             format!("s{}", i)
@@ -551,11 +558,20 @@ impl NameGen {
 
 pub fn gen_plan(src: &mut Src, cfg: &GenCfg) -> Plan {
     let u = 1 + src.pick(cfg.universe_max);
-    let start = src.pick(NT * ND);
-    let stride = 1 + 2 * src.pick(8);
-    let universe: Vec<Res> = (0..u)
-        .map(|i| Res::from_index((start + i * stride) % (NT * ND)))
-        .collect();
+    let universe: Vec<Res> = if cfg.extended_universe {
+        let start = src.pick(NT * ND);
+        // strides coprime to 96
+        let stride = [1usize, 5, 7, 11, 13, 17, 19, 23][src.pick(8)];
+        (0..u)
+            .map(|i| Res::from_index((start + i * stride) % (NT * ND)))
+            .collect()
+    } else {
+        let start = src.pick(NT * ND_CLASSIC);
+        let stride = 1 + 2 * src.pick(8);
+        (0..u)
+            .map(|i| Res::classic((start + i * stride) % (NT * ND_CLASSIC)))
+            .collect()
+    };
     gen_builder(src, cfg, &universe, 0, cfg.max_ops)
 }
 
